@@ -193,6 +193,11 @@ def run(ctx):
          [["I"] * 4, ["I"] * 4], [0, 0, 0, 0], "{}", [[1], [4], [2, 3], [1, 4], [1, 2, 3, 4]], True)),
         ("3 sites uncoupled, ancillas", config(3, 2, 2, 3, 8, 2, [0, 0], [1, 2, 3],
          [["SC", "CSP", "I"], ["SW", "SC", "I"], ["CS", "SW", "I"]], [1, 1, 0], "{}", [[1], [2], [3], [1, 3]], False)),
+        # homogeneous chains: several bonds have bit-identical Liouvillians (gate construction must not confuse them)
+        ("3 sites, equal couplings, no site terms", config(3, 2, 2, 2, 8, 2, [1, 1], [0, 0, 0],
+         [["I", "I", "I"], ["I", "I", "I"]], [0, 0, 0], "{}", [[1], [2], [3], [1, 2], [2, 3], [1, 2, 3]], True)),
+        ("5 sites homogeneous, order 1", config(5, 2, 2, 1, 8, 1, [1, 1, 1, 1], [1, 1, 1, 1, 1],
+         [["I"] * 5], [0] * 5, "{}", [[1], [3], [5], [2, 3], [4, 5], [1, 5]], True)),
     ]
     if not quick:
         configs.append(("4 sites, order 1, ancillas, 3 steps", config(4, 2, 2, 3, 8, 1, [1, 1, 2], [1, 1, 0, 2],
